@@ -319,43 +319,28 @@ pub fn insert_error_class(e: &InsertError) -> &'static str {
     }
 }
 
-/// Class of an `anyhow::Error` coming back from the actor / replica: downcast where possible,
-/// otherwise a coarse class from the message (never compared on full text).
+/// Class of an `anyhow::Error` coming back from the actor / replica: the typed cause where there is one
+/// (`InsertError`, `ValidationFailure`, `ReadOnly`), otherwise just "err".  Error *texts* are never looked at:
+/// no property speaks about wording, and a reworded message must not change a trace.
 pub fn anyhow_class(e: &anyhow::Error) -> String {
-    if let Some(ie) = e.downcast_ref::<InsertError>() {
-        return insert_error_class(ie).to_string();
-    }
-    if let Some(v) = e.downcast_ref::<ValidationFailure>() {
-        return match v {
-            ValidationFailure::InvalidNamespace => "InvalidNamespace",
-            ValidationFailure::BadSignature => "BadSignature",
-            ValidationFailure::TooFarInTheFuture => "TooFarInTheFuture",
-            ValidationFailure::InvalidEmptyEntry => "InvalidEmptyEntry",
+    for cause in e.chain() {
+        if let Some(ie) = cause.downcast_ref::<InsertError>() {
+            return insert_error_class(ie).to_string();
         }
-        .to_string();
+        if let Some(v) = cause.downcast_ref::<ValidationFailure>() {
+            return match v {
+                ValidationFailure::InvalidNamespace => "InvalidNamespace",
+                ValidationFailure::BadSignature => "BadSignature",
+                ValidationFailure::TooFarInTheFuture => "TooFarInTheFuture",
+                ValidationFailure::InvalidEmptyEntry => "InvalidEmptyEntry",
+            }
+            .to_string();
+        }
+        if cause.downcast_ref::<iroh_docs::sync::ReadOnly>().is_some() {
+            return "ReadOnly".into();
+        }
     }
-    let s = format!("{e:#}");
-    if s.contains("replica not open") {
-        "NotOpen".into()
-    } else if s.contains("sync is not enabled") {
-        "SyncDisabled".into()
-    } else if s.contains("replica is closed") {
-        "Closed".into()
-    } else if s.contains("read only") || s.contains("read access only") {
-        "ReadOnly".into()
-    } else if s.contains("author not found") {
-        "AuthorNotFound".into()
-    } else if s.contains("replica is not closed") {
-        "StillOpen".into()
-    } else if s.contains("document not created") {
-        "NoDocument".into()
-    } else if s.contains("Replica not found") {
-        "NotFound".into()
-    } else if s.contains("sending to iroh_docs actor failed") || s.contains("channel closed") {
-        "ActorGone".into()
-    } else {
-        format!("Other")
-    }
+    "err".into()
 }
 
 /// ndjson trace writer
